@@ -44,6 +44,41 @@ func bnZero(c *Ctx, a *flAgg) {
 						coll, idx = in.X, in.Index
 					case *ssa.Index:
 						coll, idx = in.X, in.Index
+					case *ssa.Slice:
+						// constant slice bounds x[a:b]: len(x) >= max(a, b)
+						if arrayLen(in.X) >= 0 {
+							continue
+						}
+						if _, isPtr := in.X.Type().Underlying().(*types.Pointer); isPtr {
+							continue
+						}
+						need := int64(0)
+						for _, bd := range []ssa.Value{in.Low, in.High} {
+							if bd != nil {
+								if k, ok := bnConst(bd); ok && k > need {
+									need = k
+								}
+							}
+						}
+						if need == 0 {
+							continue
+						}
+						total++
+						what := srcSliceExpr(c, in.Pos())
+						ord[what]++
+						key := bnDesc(f, in.X, "const-slice:"+what, ord[what])
+						lb := an.lenLB(in.X, b, ins, 0)
+						switch {
+						case lb >= need:
+							proved++
+							a.ok("BN-zero", key, fmt.Sprintf("len >= %d at this point", lb), in.Pos())
+						case bnCallee(an.producer(in.X)) == "runtime.Version" || bnCallee(in.X) == "runtime.Version" || an.fromRuntimeVersion(in.X):
+							proved++
+							a.ok("BN-zero", key, "contract: runtime.Version() of the running binary (configuration, not input)", in.Pos())
+						default:
+							a.bad("BN-zero", key, fmt.Sprintf("constant slice bound %d: nothing on the way guarantees that many elements (proven: %d)", need, lb), in.Pos())
+						}
+						continue
 					default:
 						continue
 					}
@@ -352,11 +387,11 @@ func bnZeroContract(c *Ctx, f *ssa.Function, coll ssa.Value, k int64) string {
 	field := named.Obj().Name() + "." + st.Field(fa.Field).Name()
 	switch field {
 	case "Snapshot.Goroutines":
-		if funcKey(f) == "(*stack.Snapshot).IsRace" && oblsDischarged(c, "FL", "FL-snapshot") {
+		if withinOnly(c, f, "(*stack.Snapshot).IsRace", 0) && oblsDischarged(c, "FL", "FL-snapshot") {
 			return "a Snapshot is handed out by ScanSnapshot only when s.Goroutines != nil, and the list only grows (FL-snapshot discharged on this run; SM-append); IsRace on a hand-made empty Snapshot is outside the property"
 		}
 	case "Bucket.IDs":
-		if strings.HasPrefix(funcKey(f), "(*stack.Snapshot).Aggregate") && oblsDischarged(c, "AG", "AG-once", "AG-collect") {
+		if withinOnly(c, f, "(*stack.Snapshot).Aggregate", 0) && oblsDischarged(c, "AG", "AG-once", "AG-collect") {
 			return "every bucket is created with one goroutine id and ids are only appended (AG-once, AG-collect discharged on this run)"
 		}
 	}
@@ -829,4 +864,59 @@ func aggDischarged(a *flAgg, rule string) bool {
 		}
 	}
 	return true
+}
+
+// withinOnly: f is the named function (or one of its closures), or a helper
+// outside the pinned vocabulary all of whose static callers are.
+func withinOnly(c *Ctx, f *ssa.Function, prefix string, depth int) bool {
+	if strings.HasPrefix(funcKey(f), prefix) {
+		return true
+	}
+	if depth > 3 || !defaultInline(f) {
+		return false
+	}
+	n := 0
+	for _, pn := range []string{"stack", "internal", "stack/webstack"} {
+		for _, g := range c.L.SrcFuncs(pn) {
+			for _, b := range g.Blocks {
+				for _, in := range b.Instrs {
+					if ci, ok := in.(ssa.CallInstruction); ok && ci.Common().StaticCallee() == f {
+						n++
+						if !withinOnly(c, g, prefix, depth+1) {
+							return false
+						}
+					}
+				}
+			}
+		}
+	}
+	return n > 0
+}
+
+// fromRuntimeVersion: the value is runtime.Version() (possibly through a phi
+// or a local).
+func (a *bnAn) fromRuntimeVersion(v ssa.Value) bool {
+	seen := map[ssa.Value]bool{}
+	var rec func(v ssa.Value) bool
+	rec = func(v ssa.Value) bool {
+		if seen[v] {
+			return true
+		}
+		seen[v] = true
+		switch v := v.(type) {
+		case *ssa.Call:
+			return bnCallee(v) == "runtime.Version"
+		case *ssa.Phi:
+			for _, e := range v.Edges {
+				if !rec(e) {
+					return false
+				}
+			}
+			return len(v.Edges) > 0
+		case *ssa.Slice:
+			return rec(v.X)
+		}
+		return false
+	}
+	return rec(v)
 }
